@@ -847,11 +847,15 @@ theorem qstartFailed_single (p : Proc) (c : Ctx) (o : Out) : (qstartFailed p c o
 theorem goodP_pstep {p : Proc} (hp : GoodP p) {o : POp} (ho : Harmless o) : GoodP (pstep p o).1 := by
   rcases hp with hn | ⟨c, hc, hw, ha, hb⟩
   · cases o with
-    | qstart v t tf uf peers =>
+    | qstart v t tf uf peers lf =>
       cases v with
       | false => left; simp only [pstep, pstep', Proc.clr, hn, Option.map_none, qstart]; rfl
       | true =>
         simp only [pstep, pstep', Proc.clr, hn, Option.map_none, qstart, Bool.not_true, Bool.false_eq_true, if_false]
+        cases lf with
+        | true => left; simp only [if_true]; exact qstartFailed_single _ _ _
+        | false =>
+        simp only [Bool.false_eq_true, if_false]
         have hw1 : WF (start (Ctx.init t) tf uf).1 := wf_start (wf_init t) tf uf
         have hst := start_ok_active (Ctx.init t) tf uf
         have hsh : (start (Ctx.init t) tf uf).1.stopH = [] := start_stopH _ _ _
@@ -875,7 +879,7 @@ theorem goodP_pstep {p : Proc} (hp : GoodP p) {o : POp} (ho : Harmless o) : Good
     | op o => left; simp only [pstep, pstep', Proc.clr, hn, Option.map_none]
   · have h0 : WF { c with log := [] } := hw.congr rfl rfl rfl rfl rfl
     cases o with
-    | qstart v t tf uf peers =>
+    | qstart v t tf uf peers lf =>
       right
       simp only [pstep, pstep', Proc.clr, hc, Option.map_some, qstart]
       exact ⟨_, rfl, h0, ha, hb⟩
@@ -1036,7 +1040,7 @@ theorem qstartFailed_dropped {p : Proc} (hp : DroppedEmpty p) {c : Ctx} (h : WF 
 theorem droppedEmpty_pstep {p : Proc} (hp : DroppedEmpty p) (o : POp) : DroppedEmpty (pstep p o).1 := by
   have hclr : DroppedEmpty p.clr := hp
   cases o with
-  | qstart v t tf uf peers =>
+  | qstart v t tf uf peers lf =>
     simp only [pstep, pstep', qstart]
     cases hs : p.clr.single with
     | some c => exact hclr
@@ -1046,6 +1050,12 @@ theorem droppedEmpty_pstep {p : Proc} (hp : DroppedEmpty p) (o : POp) : DroppedE
       | false => exact hclr
       | true =>
         simp only [Bool.not_true, Bool.false_eq_true, if_false]
+        cases lf with
+        | true =>
+          simp only [if_true]
+          exact (qstartFailed_dropped hclr (wf_init t) rfl (fun _ => ⟨rfl, rfl⟩) _).1
+        | false =>
+        simp only [Bool.false_eq_true, if_false]
         have hf := start_init_facts t tf uf
         cases hst : start (Ctx.init t) tf uf with
         | mk c1 o1 =>
@@ -1133,11 +1143,11 @@ def StoppedP (p : Proc) : Prop := ∃ d, p.single = some d ∧ Stopped d
 
 theorem stoppedP_pstep {p : Proc} (h : StoppedP p) (o : POp) :
     StoppedP (pstep p o).1 ∧
-    ((∃ v t tf uf peers, o = .qstart v t tf uf peers) ∨ o = .qstop → (pstep p o).2 = .exc .usage) := by
+    ((∃ v t tf uf peers lf, o = .qstart v t tf uf peers lf) ∨ o = .qstop → (pstep p o).2 = .exc .usage) := by
   obtain ⟨d, hd, hs⟩ := h
   have h0 : Stopped { d with log := [] } := ⟨hs.1, hs.2, hs.3, hs.4, hs.5, hs.6, hs.7⟩
   cases o with
-  | qstart v t tf uf peers =>
+  | qstart v t tf uf peers lf =>
     simp only [pstep, pstep', Proc.clr, hd, Option.map_some, qstart]
     exact ⟨⟨_, rfl, h0⟩, fun _ => trivial⟩
   | qstop =>
@@ -1146,10 +1156,10 @@ theorem stoppedP_pstep {p : Proc} (h : StoppedP p) (o : POp) :
     exact ⟨⟨_, rfl, h0⟩, fun _ => trivial⟩
   | qcontext =>
     simp only [pstep, pstep', Proc.clr, hd, Option.map_some]
-    exact ⟨⟨_, rfl, h0⟩, fun h => by rcases h with ⟨_, _, _, _, _, h⟩ | h <;> cases h⟩
+    exact ⟨⟨_, rfl, h0⟩, fun h => by rcases h with ⟨_, _, _, _, _, _, h⟩ | h <;> cases h⟩
   | op o =>
     simp only [pstep, pstep', Proc.clr, hd, Option.map_some]
-    exact ⟨⟨_, rfl, stopped_step h0 o⟩, fun h => by rcases h with ⟨_, _, _, _, _, h⟩ | h <;> cases h⟩
+    exact ⟨⟨_, rfl, stopped_step h0 o⟩, fun h => by rcases h with ⟨_, _, _, _, _, _, h⟩ | h <;> cases h⟩
 
 theorem stoppedP_prun {p : Proc} (h : StoppedP p) (ops : List POp) : StoppedP (prun p ops) := by
   induction ops generalizing p with
@@ -1157,7 +1167,7 @@ theorem stoppedP_prun {p : Proc} (h : StoppedP p) (ops : List POp) : StoppedP (p
   | cons o os ih => exact ih (stoppedP_pstep h o).1
 
 theorem qclean_ok (p : Proc) (hn : p.single = none) (t : Bool) :
-    (pstep p (.qstart true t false false [])).2 = .ok := by
+    (pstep p (.qstart true t false false [] false)).2 = .ok := by
   simp only [pstep, pstep', Proc.clr, hn, Option.map_none, qstart, Bool.not_true, Bool.false_eq_true, if_false]
   cases t <;> simp [start, Ctx.init, connectPeers]
 
